@@ -34,8 +34,9 @@ REQUESTS = [("user", "Start"), ("user", "Stop"), ("user", "Pause"), ("user", "Un
             ("user", "Restart"), ("inject", "SetOut: 7"), ("inject", "Valve: Open")]
 REDUCED = [("user", "Start"), ("user", "Stop"), ("user", "Pause"), ("user", "Unpause"), ("inject", "SetOut: 7")]
 PRE = 2                                 # ticks before the first Start
-HORIZON = 18
-LAST_REQUEST_TICK = 15
+HORIZON = {"quick": 16, "thorough": 18}           # ticks per execution
+# request ticks per request set: (first, last)
+TICKS = {("quick", "full"): (0, 13), ("thorough", "full"): (0, 15), ("thorough", "reduced"): (2, 13), ("quick", "reduced"): (2, 11)}
 WRITERS = {"SetOut": "Out1", "Set1": "Out1", "Valve": "Out2"}
 
 
@@ -43,7 +44,7 @@ def safe_values(run: Run) -> dict:
     return {r.name: r.options["safe_value"] for r in run.hw.registers.values() if "safe_value" in r.options}
 
 
-def run_one(lines, schedule, trace=None):
+def run_one(lines, schedule, horizon, trace=None):
     """One execution: engine start, PRE ticks, Start, ... with `schedule` = [(tick, request)] applied before that tick.
     Returns (problems, info)."""
     run = Run("\n".join(lines), start=False, observe=("tags",))
@@ -84,7 +85,7 @@ def run_one(lines, schedule, trace=None):
     n_pause_ticks = n_stop_ticks = n_prestart = n_exempt_used = 0
     states = set()
     wl0 = 0
-    for t in range(HORIZON):
+    for t in range(horizon):
         reqs = [q for q, _ in by_tick.get(t, ())]
         for req, idx in by_tick.get(t, ()):
             rec = apply_request(run, req)
@@ -111,7 +112,8 @@ def run_one(lines, schedule, trace=None):
                                                                f"is started (safe value {safe[reg]!r})")
         wl0 = len(run.hw.wlog)
         # Restart: request before tick t -> tick t cancels, tick t+1 ends with no run started, tick t+2 starts the new run
-        restart_phase = (not post["started"]) and (prev_state == "Restarting" or restart_requested_at == t - 1)
+        # (two Restart requests in one tick advance the same command twice: the stopped phase is then tick t itself)
+        restart_phase = (not post["started"]) and (prev_state == "Restarting" or restart_requested_at in (t - 1, t))
         prev_state = ob["state"]
         if post["started"]:
             ever_started = True
@@ -161,7 +163,7 @@ def run_one(lines, schedule, trace=None):
                     continue
                 writers = sorted({c[1] for c in run.cmd_events if c[2] == "exec" and c[0] >= pause_begin
                                   and WRITERS.get(c[1]) == r})
-                if writers:
+                if writers and pause_kind != "error-pause":
                     report(f"C08:pause-overwritten-by-running-uod-command:{writers[0]}",
                            f"tick {t}: paused since tick {pause_begin} but the hardware holds {r} = {mem[r]!r} (safe value "
                            f"{safe[r]!r}): UOD command {writers[0]} kept executing during the pause and wrote the output")
@@ -187,9 +189,10 @@ def explore_program(item):
     """Depth-first enumeration of the schedules with <= k requests for one program.
     item = (lines, k, request set, first): first is None -> the empty schedule and all single requests;
     first = i -> all schedules of 2..k requests whose first request is candidate i."""
-    lines, k, reqset, first = item
-    requests = REQUESTS if reqset == "full" else REDUCED
-    cands = [(t, r) for t in range(LAST_REQUEST_TICK + 1) for r in requests]
+    lines, k, reqset, first, tier = item
+    horizon = HORIZON[tier]
+    cands = candidates(tier, reqset)
+    nreq = len(REQUESTS if reqset == "full" else REDUCED)
     out = []
     seen = set()
     tot = dict(execs=0, pruned=0, nontrivial=0, pause_ticks=0, stop_ticks=0, prestart_ticks=0, exempt_used=0, ticks=0)
@@ -197,10 +200,10 @@ def explore_program(item):
     states = set()
 
     def rec(schedule, left, start_idx, count=True):
-        probs, info = run_one(lines, schedule)
+        probs, info = run_one(lines, schedule, horizon)
         if count:
             tot["execs"] += 1
-            tot["ticks"] += HORIZON
+            tot["ticks"] += horizon
             by_k[len(schedule)] += 1
             states.update(info["states"])
             for key in ("pause_ticks", "stop_ticks", "prestart_ticks", "exempt_used"):
@@ -210,7 +213,7 @@ def explore_program(item):
             for sig, what in probs:
                 if sig not in seen:
                     seen.add(sig)
-                    out.append((sig, what, {"lines": lines, "schedule": [[t, list(r)] for t, r in schedule]}))
+                    out.append((sig, what, {"lines": lines, "horizon": horizon, "schedule": [[t, list(r)] for t, r in schedule]}))
         if schedule and info["last_rejected"]:
             if count:
                 tot["pruned"] += 1
@@ -219,19 +222,20 @@ def explore_program(item):
             return
         for i in range(start_idx, len(cands)):
             # the next request is placed at the same or a later tick; inside one tick both orders are enumerated
-            rec(schedule + [cands[i]], left - 1, i - (i % len(requests)))
+            rec(schedule + [cands[i]], left - 1, i - (i % nreq))
 
     if first is None:
         rec([], min(k, 1), 0)
     else:
-        rec([cands[first]], k - 1, first - (first % len(requests)), count=False)
+        rec([cands[first]], k - 1, first - (first % nreq), count=False)
     tot["by_k"] = by_k
     tot["states"] = sorted(map(repr, states))
     return out, tot
 
 
-def n_candidates(reqset):
-    return (LAST_REQUEST_TICK + 1) * len(REQUESTS if reqset == "full" else REDUCED)
+def candidates(tier, reqset):
+    lo, hi = TICKS[(tier, reqset)]
+    return [(t, r) for t in range(lo, hi + 1) for r in (REQUESTS if reqset == "full" else REDUCED)]
 
 
 def programs(stmts, max_n):
@@ -252,7 +256,7 @@ def corpus(ctx):
     items = []
     if ctx.quick:
         for p in programs(STMTS + EXTRA, 2):
-            core = len(p) == 1 or all(s in CORE for s in p)
+            core = len(p) == 1 or ("SetOut: 5" in p and all(s in CORE for s in p))
             items.append((p, 2 if core else 1, "full"))
     else:
         for p in programs(STMTS + EXTRA, 2):
@@ -270,12 +274,12 @@ def run(ctx):
     # work items: per program the schedules with <= 1 request, and one item per first request for the longer schedules
     items = []
     for (p, k, rs) in progs:
-        items.append((p, k, rs, None))
+        items.append((p, k, rs, None, ctx.tier))
     for (p, k, rs) in progs:
         if k >= 2:
-            for i in range(n_candidates(rs)):
-                items.append((p, k, rs, i))
-    ctx.prove_deterministic(lambda it: explore_program((it[0], 1, it[2], None))[0], [items[0], items[4], items[len(progs) - 1]], k=3)
+            for i in range(len(candidates(ctx.tier, rs))):
+                items.append((p, k, rs, i, ctx.tier))
+    ctx.prove_deterministic(lambda it: explore_program((it[0], 1, it[2], None, it[4]))[0], [items[0], items[4], items[len(progs) - 1]], k=3)
     results = ctx.pmap(explore_program, items, chunk=1 if ctx.quick else 2)
     tot = dict(execs=0, pruned=0, nontrivial=0, pause_ticks=0, stop_ticks=0, prestart_ticks=0, exempt_used=0, ticks=0)
     by_k = [0, 0, 0, 0]
@@ -296,13 +300,14 @@ def run(ctx):
         branches_ended_by_rejected_request=tot["pruned"], paused_ticks_checked=tot["pause_ticks"],
         stopped_ticks_checked=tot["stop_ticks"], ticks_before_first_start_checked=tot["prestart_ticks"],
         register_checks_exempted_by_user_command=tot["exempt_used"],
-        rule="each program with every schedule of <= k requests (any request at any tick 0..15, both orders inside one tick; a "
+        rule="each program with every schedule of <= k requests (any request at any request tick, both orders inside one tick; a "
              "rejected request ends its branch); non-trivial = executions with a checked paused or stopped tick after a "
              "safe-valued output had been driven away from its safe value on the hardware; states = distinct (system state, "
              "run flags, phase, hardware-safe pattern, tag-safe pattern) after a tick",
         samples=[{"lines": progs[0][0], "k": progs[0][1]}, {"lines": progs[len(progs) // 2][0], "k": progs[len(progs) // 2][1]},
                  {"lines": progs[-1][0], "k": progs[-1][1], "requests": progs[-1][2]}],
-        exhaustive=True, horizon=HORIZON, ticks_before_start=PRE, statements=STMTS + EXTRA,
+        exhaustive=True, horizon=HORIZON[ctx.tier], request_ticks={k[1]: list(v) for k, v in TICKS.items() if k[0] == ctx.tier},
+        ticks_before_start=PRE, statements=STMTS + EXTRA,
         requests=[list(r) for r in REQUESTS], reduced_requests=[list(r) for r in REDUCED])
     ctx.assumptions += ["a request rejected by Engine._validate_control_command changes nothing (its branch is not extended)",
                         "Start is requested before tick 2 in every execution; the schedule adds further requests",
@@ -312,7 +317,7 @@ def run(ctx):
 def replay(data):
     sched = [(t, tuple(r)) for t, r in data["schedule"]]
     trace = []
-    probs, _ = run_one(data["lines"], sched, trace=trace)
+    probs, _ = run_one(data["lines"], sched, data.get("horizon", HORIZON["thorough"]), trace=trace)
     print("program:", data["lines"])
     print("schedule:", sched, f"(Start before tick {PRE})")
     for line in trace:
